@@ -74,6 +74,25 @@ func (r *Rand) AnyDuration() time.Duration { return time.Duration(r.AnyInt64()) 
 
 // ValueSpec returns an unsorted, possibly duplicated finite bound list.
 func (r *Rand) ValueSpec(maxN int) []float64 {
+	if maxN >= 8 && r.Chance(1, 6) {
+		// evenly spaced bounds the way LinearValueBuckets computes them, with
+		// widths that are not dyadic (start + i*width is then not (i*width)+start
+		// re-derived from a division), sometimes in shuffled order
+		n := r.Range(8, maxN)
+		start := []float64{0, -1, 0.5, 3, -0.3}[r.Intn(5)]
+		width := []float64{0.1, 0.3, 1.0 / 3, 0.001, 0.7, 2.5, 0.05, 1e-9}[r.Intn(8)]
+		out := make([]float64, n)
+		for i := range out {
+			out[i] = start + float64(i)*width
+		}
+		if r.Chance(1, 3) {
+			for i := len(out) - 1; i > 0; i-- {
+				j := r.Intn(i + 1)
+				out[i], out[j] = out[j], out[i]
+			}
+		}
+		return out
+	}
 	n := r.Range(1, maxN)
 	if r.Chance(1, 3) {
 		n = r.Range(1, 5)
